@@ -455,6 +455,15 @@ pub fn op_assign<B: Be>(mut doc: B, p: &Pointer, v: B) -> String {
     let info = r.as_ref().err().map(|e| info_assign(e, p));
     emit_locate(&mut o, p, info.as_ref());
 
+    // the same call on an `==` document whose arrays have spare capacity must give the same outcome
+    let mut law_slack = Law::new();
+    {
+        let mut slack = old.with_slack();
+        let r2: Result<Option<B>, assign::Error> = slack.assign(p, v.clone());
+        law_slack.ck(fmt_assign_r(&r2) == fmt_assign_r(&r), "result_depends_on_capacity");
+        law_slack.ck(slack == doc, "document_depends_on_capacity");
+        if let (Err(a), Err(b)) = (&r, &r2) { law_slack.ck(a == b, "error_depends_on_capacity"); }
+    }
     let mut law_atomic = Law::new();
     if r.is_err() {
         law_atomic.ck(doc == old, "document_changed_on_error");
@@ -520,6 +529,7 @@ pub fn op_assign<B: Be>(mut doc: B, p: &Pointer, v: B) -> String {
     o.law("law_replaced", &law_replaced);
     o.law("law_idem", &law_idem);
     o.law("law_locate", &law_locate);
+    o.law("law_slack", &law_slack);
     o.finish()
 }
 
@@ -576,6 +586,13 @@ pub fn op_delete<B: Be>(mut doc: B, p: &Pointer) -> String {
     let r: Option<Option<B>> = guard(|| doc.delete(p));
     o.f("r", &fmt_delete_r(&r));
     o.f("doc", &doc.to_doc().print());
+    let mut law_slack = Law::new();
+    {
+        let mut slack = old.with_slack();
+        let r2: Option<Option<B>> = guard(|| slack.delete(p));
+        law_slack.ck(fmt_delete_r(&r2) == fmt_delete_r(&r), "result_depends_on_capacity");
+        law_slack.ck(slack == doc, "document_depends_on_capacity");
+    }
 
     let reference = ref_walk(&old, &toks);
     let mut law_agrees = Law::new();
@@ -616,6 +633,7 @@ pub fn op_delete<B: Be>(mut doc: B, p: &Pointer) -> String {
     o.law("law_none_unchanged", &law_none_unchanged);
     o.law("law_removed", &law_removed);
     o.law("law_root", &law_root);
+    o.law("law_slack", &law_slack);
     o.finish()
 }
 
